@@ -14,6 +14,7 @@ func init() {
 			ma.ruleR1(c)
 			ma.ruleR1t(c)
 			ma.ruleR8(c)
+			ma.ruleR14m(c)
 			ma.ruleR13(c)
 			ma.ruleR16(c)
 			ma.ruleR18(c)
